@@ -453,8 +453,16 @@ pub mod checks {
                              else { docs(if tier == "thorough" { 200 } else { 30 }, seed) };
         let qs = text_queries(name, tier, seed);
         let stride = if tier == "thorough" || name == "text_arith" { 1 } else { 5 };
-        let mut rejected = 0u64;
-        for (qi, q) in qs.iter().enumerate() {
+        // the queries are spread over 8 threads (a single (query, document) pair is replayed on one)
+        let nthreads: usize = if only.is_some() { 1 } else { 8 };
+        let (qs_ref, ds_ref) = (&qs, &ds);
+        let parts: Vec<(Report, u64)> = std::thread::scope(|sc| {
+            let hs: Vec<_> = (0..nthreads).map(|t| sc.spawn(move || {
+                let (qs, ds) = (qs_ref, ds_ref);
+                let mut rep = Report::new(name);
+                let mut rejected = 0u64;
+                for (qi, q) in qs.iter().enumerate() {
+                    if qi % nthreads != t { continue; }
             let text = print::query(q);
             for (di, d) in ds.iter().enumerate() {
                 if let Some((a, b)) = only { if (qi, di) != (a, b) { continue; } } else if (qi + di) % stride != 0 && di >= always() { continue; }
@@ -522,6 +530,12 @@ pub mod checks {
                 }
             }
         }
+                (rep, rejected)
+            })).collect();
+            hs.into_iter().map(|h| h.join().unwrap_or_else(|_| (Report::new(name), 0))).collect()
+        });
+        let mut rejected = 0u64;
+        for (p, r) in parts { rep.merge(p); rejected += r; }
         if name == "text_arith" {
           for d in [json!([0, 1, 2]), json!([[0, 1, 2], [1], []]), json!({"a": [1, 2], "b": [[1]]})] {
             for t in ["$[-9223372036854775808]", "$[9223372036854775807]", "$[-9223372036854775808:]", "$[:-9223372036854775808]", "$[::-9223372036854775808]",
